@@ -26,6 +26,7 @@
 From Coq Require Import ZArith QArith List Bool.
 From TM Require Import Sched.Vec Sched.Types Sched.Queue Sched.Tree Sched.Cycle Sched.Events Sched.MapsP Sched.Steps Sched.FrameP
                        Sched.InvAcct Sched.InvAff Sched.InvIdent Sched.TurnP Sched.CycleP Sched.KeepP Sched.DisplaceC Sched.Reach.
+From TM Require Import Base.ShapeCanon.
 Import ListNotations.
 Open Scope Z_scope.
 
@@ -121,3 +122,10 @@ Example C07_nonvacuous_outcomes :
    option_map a_server (get_app 3 (c_apps c2)) = Some None /\
    option_map a_server (get_app 3 (c_apps (step c2 (OSchedule [])))) = Some (Some 1000)).
 Proof. vm_compute. repeat split; reflexivity. Qed.
+
+(** the functions of treadmill/scheduler/__init__.py these theorems were proved about still have the statement
+    skeleton the model was written from (re-extracted from the Python AST on every run, harness/tables_shape.py;
+    kept last so that a difference does not stop the theorems above from being checked) *)
+Theorem C07_source_shape : shapes_ok_C07 = true.
+Proof. vm_compute. reflexivity. Qed.
+Print Assumptions C07_source_shape.
